@@ -75,6 +75,28 @@ def register(op):
             return _err(e)
 
     @op
+    def linestarts_relocate(a):
+        """findlinestarts of a portable code object, THEN the same object moved to another first line
+        (replace(co_firstlineno=...), and attribute assignment), and a fresh object built there"""
+        opc = _opc(a["version"])
+        code = _nop_code(opc, a["code_len"])
+        tab = bytes.fromhex(a["tab"])
+        first, delta = a["first"], a["delta"]
+        try:
+            co = _portable(a["version"], first, code, tab)
+            out = {"before": [[o, l] for o, l in opc.findlinestarts(co)]}
+            co2 = co.replace(co_firstlineno=first + delta)
+            out["replace"] = [[o, l] for o, l in opc.findlinestarts(co2)]
+            out["original_after_replace"] = [[o, l] for o, l in opc.findlinestarts(co)]
+            co.co_firstlineno = first + delta
+            out["assign"] = [[o, l] for o, l in opc.findlinestarts(co)]
+            fresh = _portable(a["version"], first + delta, code, tab)
+            out["fresh"] = [[o, l] for o, l in opc.findlinestarts(fresh)]
+            return out
+        except Exception as e:  # noqa
+            return _err(e)
+
+    @op
     def relocate311(a):
         """query the tables of a 3.11+ portable code object, THEN move it (replace(co_firstlineno=...) and
         attribute assignment) and query again; also a fresh object built at the new first line"""
